@@ -104,7 +104,9 @@ def run_harnesses(pid, harnesses, tier, cov, cmds, scratch_root):
         cmd = ["cargo", "kani", "-Z", "stubbing", "-Z", "function-contracts", "-j", "8", "--output-format", "terse"]
         for h in harnesses:
             cmd += ["--harness", h]
-        env = dict(os.environ, CARGO_NET_OFFLINE="true")
+        # dependency build cache shared between runs (only third-party crates are reused: the scratch copy of btdht has a
+        # fresh path every run, so the crate under proof is always rebuilt from /repo's current working tree)
+        env = dict(os.environ, CARGO_NET_OFFLINE="true", CARGO_TARGET_DIR=os.path.join(scratch_root, "kani-deps-cache"))
         try:
             r = subprocess.run(cmd, cwd=dst, capture_output=True, text=True, timeout=3000, env=env)
         except subprocess.TimeoutExpired:
